@@ -14,6 +14,10 @@ CHECKS = {
    technique='deterministic simulation, self-differential oracle (live engine vs fresh engine on a copy of the database) over seeded histories',
    text='Seeded exploration of (prefix history, probe) pairs on the real engine+session+SQLite under a simulated clock and entropy; the probe response and resulting store must equal those of a fresh engine opened on a copy of the database. Evidence of absence of carry-over on the sampled histories, not proof.',
    note='Trusted: the simulator seams (FakeConnection, SimClock, SimRng, RSA key pool) and the independent TTLV builder/reader; requests delivered whole, one session at a time.'),
+ 'C09': dict(level='fault_enumeration', ref='5/C09',
+   technique='deterministic simulation with fault injection: LD_PRELOAD disk shim kills the forked server before every file-changing libc call of the target request; recovered store compared with fault-free twin runs',
+   text='For each seeded scenario every crash point of the target state-changing request is enumerated (k=1..N+1 intercepted pwrite/fdatasync/unlink/... calls, plus death between commit and response, plus a second kill during recovery, plus ENOSPC/EIO at sampled or all k). After each, a fresh engine must open the file, integrity and row-completeness checks must pass, the store must equal the twin state before or after the request (after, if the response had been reported; any item-prefix state for batches), every identity must see the twin view through the API, and the suffix requests must behave as in the twin. Complete over crash instants per scenario; scenarios are sampled.',
+   note='Process death only (completed writes survive; no power loss / torn sectors). SQLite itself runs for real and is trusted. Trusted: the shim, the twin-run oracle (needs determinism, which each run re-checks), tmpfs as the disk.'),
 }
 ALL = ['C%02d' % i for i in range(1, 21)]
 
